@@ -9,6 +9,7 @@
 //!   `ub <rate32h>`                      measures P(weight = lower) by bisection over the draw (real code) and
 //!                                       checks the expectation (oracle only)
 //!   `cg <target>/<v>/<ctor> <op>…`      `CongressSample` history with manual interval ends (see `CgCfg`, `CgOp`)
+//!   `dr <words> <call>…` / `st <rate32h> <n>`   the default RNG path: `DefaultRng<scripted R>` call by call / statistics over `ThreadRng`
 //!   `rt <target>/<v>/<interval_ms> <step>…`  `CongressSample` under its REAL clock (see `RtStep`)
 //!
 //! Oracles (Rust, exact integer arithmetic, independent of the Lean model) — see `notes/C12.md`.
@@ -1130,6 +1131,231 @@ fn gen_rt(rng: &mut Rng, i: usize) -> (RtCfg, Vec<RtStep>) {
     (cfg, steps)
 }
 
+// ------------------------------------------------------------------------------------------------
+// the default RNG path
+//
+// (a) `dr <word64h>,… <call>…`: `DefaultRng<R>` over a scripted `R: Default + RngCore` whose `default()` is a
+//     handle on a thread-local script (the way `ThreadRng::default()` is a handle on the thread's generator).
+// (b) `st <rate32h> <n>`: statistics of the REAL default path (`ThreadRng`, OS-seeded; independent of VERIF_SEED).
+
+struct TlState {
+    words: Vec<u64>,
+    pos: usize,
+    log: Vec<String>,
+}
+
+thread_local! {
+    static TL: RefCell<TlState> = const { RefCell::new(TlState { words: vec![], pos: 0, log: vec![] }) };
+}
+
+#[derive(Default)]
+struct TlRng;
+
+fn tl_word() -> u64 {
+    TL.with(|t| {
+        let mut t = t.borrow_mut();
+        let w = t.words.get(t.pos).copied().unwrap_or(0);
+        t.pos += 1;
+        w
+    })
+}
+
+fn tl_log(s: String) {
+    TL.with(|t| t.borrow_mut().log.push(s));
+}
+
+impl rand::RngCore for TlRng {
+    fn next_u32(&mut self) -> u32 {
+        tl_log("a".into());
+        (tl_word() >> 32) as u32
+    }
+    fn next_u64(&mut self) -> u64 {
+        tl_log("b".into());
+        tl_word()
+    }
+    fn fill_bytes(&mut self, dst: &mut [u8]) {
+        tl_log(format!("f{}", dst.len()));
+        for chunk in dst.chunks_mut(8) {
+            let w = tl_word().to_le_bytes();
+            chunk.copy_from_slice(&w[..chunk.len()]);
+        }
+    }
+}
+
+#[derive(Clone, Debug, PartialEq)]
+enum RngCallK {
+    U32,
+    U64,
+    Fill(usize),
+    F32,
+    F64,
+}
+
+fn enc_calls(c: &[RngCallK]) -> String {
+    c.iter()
+        .map(|c| match c {
+            RngCallK::U32 => "a".to_string(),
+            RngCallK::U64 => "b".to_string(),
+            RngCallK::Fill(n) => format!("f{n}"),
+            RngCallK::F32 => "e".to_string(),
+            RngCallK::F64 => "d".to_string(),
+        })
+        .collect::<Vec<_>>()
+        .join(" ")
+}
+
+fn do_calls<G: rand::RngCore>(g: &mut G, calls: &[RngCallK]) -> Vec<String> {
+    use rand::Rng;
+    calls
+        .iter()
+        .map(|c| match c {
+            RngCallK::U32 => format!("{:08x}", g.next_u32()),
+            RngCallK::U64 => format!("{:016x}", g.next_u64()),
+            RngCallK::Fill(n) => {
+                let mut b = vec![0xAAu8; *n];
+                g.fill_bytes(&mut b);
+                if b.is_empty() { "-".into() } else { b.iter().map(|x| format!("{x:02x}")).collect() }
+            }
+            RngCallK::F32 => f32_bits(g.random::<f32>()),
+            RngCallK::F64 => f64_bits(g.random::<f64>()),
+        })
+        .collect()
+}
+
+/// (outputs through `DefaultRng<TlRng>`, the inner generator's call log, outputs of the inner generator used directly)
+fn run_dr(words: &[u64], calls: &[RngCallK]) -> Result<(Vec<String>, Vec<String>, Vec<String>), String> {
+    catch(|| {
+        let reset = || TL.with(|t| *t.borrow_mut() = TlState { words: words.to_vec(), pos: 0, log: vec![] });
+        reset();
+        let mut w = metrique_writer::sample::DefaultRng::<TlRng>::default();
+        let through = do_calls(&mut w, calls);
+        let log = TL.with(|t| t.borrow().log.clone());
+        reset();
+        let direct = do_calls(&mut TlRng, calls);
+        (through, log, direct)
+    })
+}
+
+fn oracle_dr(calls: &[RngCallK], through: &[String], log: &[String], direct: &[String]) -> Option<String> {
+    let want: Vec<String> = calls
+        .iter()
+        .map(|c| match c {
+            RngCallK::U32 | RngCallK::F32 => "a".to_string(),
+            RngCallK::U64 | RngCallK::F64 => "b".to_string(),
+            RngCallK::Fill(n) => format!("f{n}"),
+        })
+        .collect();
+    if through != direct {
+        let i = through.iter().zip(direct).position(|(a, b)| a != b).unwrap_or(0);
+        return Some(format!("call {i} ({}): DefaultRng returned {} where the inner generator returns {}", enc_calls(&calls[i..=i]), through[i], direct[i]));
+    }
+    if log != want.as_slice() {
+        return Some(format!("DefaultRng forwarded the calls [{}] to the inner generator as [{}]", want.join(" "), log.join(" ")));
+    }
+    None
+}
+
+/// Bernstein's inequality: for the mean of n independent variables with variance <= v and |X - EX| <= b,
+/// P(|mean - EX| >= eps) <= 2 exp(-n eps^2 / (2 (v + b eps / 3))). Returns the eps for which the bound is 1e-9.
+fn bernstein_eps(n: f64, v: f64, b: f64) -> f64 {
+    let l = (2.0f64 / 1e-9).ln();
+    let k = 2.0 * l * b / 3.0;
+    (k + (k * k + 8.0 * l * v * n).sqrt()) / (2.0 * n)
+}
+
+/// one pass of the statistics of the default path for `rate`; `Some(what)` = outside the bounds
+fn stat_pass(rate: f32, n: u64) -> Result<Option<String>, String> {
+    use metrique_writer::sample::SampledFormatExt;
+    catch(|| {
+        let (fl, ce) = recip_floor_ceil(rate);
+        let inv = 1.0 / rate as f64;
+        let p_floor = if fl == ce { 1.0 } else { ce as f64 - inv }; // expectation 1/rate <=> P(floor) = ceil - 1/rate
+        let (m, e) = dec32(rate);
+        let p_emit = if rate >= 1.0 { 1.0 } else { (((m as u128) << 24 >> (-e) as u32) as f64 + 1.0) / 16777216.0 }; // P(d/2^24 <= rate), d uniform
+        // FixedFractionSample::new over Emf::with_sampling(): both on DefaultRng<ThreadRng>
+        let mut f = Emf::builder("Ns".to_string(), vec![vec![]]).skip_all_validations(true).build().with_sampling().sample_by_fixed_fraction(rate);
+        let entry = GenEntry {
+            items: vec![GItem::Timestamp(1_700_000_000_000_000), GItem::Value("W".into(), GVal::Metric { obs: vec![Observation::Unsigned(1)], unit: Unit::None, dims: vec![], flags: GFlags::None })],
+            sample_group: vec![],
+        };
+        let mut out: Vec<u8> = vec![];
+        let (mut emitted, mut n_fl, mut n_ce, mut total) = (0u64, 0u64, 0u64, 0f64);
+        for _ in 0..n {
+            out.clear();
+            f.format(&entry, &mut out).expect("format");
+            if out.is_empty() {
+                continue;
+            }
+            emitted += 1;
+            let text = std::str::from_utf8(&out).expect("utf8");
+            let i = text.find("\"Counts\":[").expect("Counts") + 10;
+            let j = i + text[i..].find(']').expect("]");
+            let w: u64 = text[i..j].parse().expect("count");
+            if w == fl {
+                n_fl += 1;
+            } else if w == ce {
+                n_ce += 1;
+            } else {
+                return Some(format!("default path: weight {w} is neither floor {fl} nor ceil {ce} of 1/rate"));
+            }
+            total += w as f64;
+        }
+        let nf = n as f64;
+        let eps = bernstein_eps(nf, p_emit * (1.0 - p_emit), 1.0);
+        let got = emitted as f64 / nf;
+        if (got - p_emit).abs() > eps {
+            return Some(format!("default path (FixedFractionSample::new): {emitted} of {n} entries emitted = {got:.5}, expected {p_emit:.5} +- {eps:.5} (false-alarm bound 1e-9)"));
+        }
+        if emitted > 0 {
+            let ef = emitted as f64;
+            let eps = bernstein_eps(ef, p_floor * (1.0 - p_floor), 1.0);
+            let got = n_fl as f64 / ef;
+            if (got - p_floor).abs() > eps {
+                return Some(format!("default path (Emf::with_sampling): weight {fl} (floor) chosen {n_fl} times and {ce} (ceil) {n_ce} times of {emitted}: P(floor) = {got:.6}, an expectation of 1/rate needs {p_floor:.6} +- {eps:.6} (false-alarm bound 1e-9)"));
+            }
+        }
+        // unbiasedness end to end: the total weight per offered entry has expectation p_emit / rate (= 1 up to 2^-24)
+        let ew = inv;
+        let ew2 = p_floor * (fl as f64).powi(2) + (1.0 - p_floor) * (ce as f64).powi(2);
+        let mu = p_emit * ew;
+        let var = p_emit * ew2 - mu * mu;
+        let eps = bernstein_eps(nf, var, ce as f64);
+        let got = total / nf;
+        if (got - mu).abs() > eps {
+            return Some(format!("default path: mean weight per offered entry {got:.5}, expected {mu:.5} +- {eps:.5} (false-alarm bound 1e-9)"));
+        }
+        None
+    })
+}
+
+/// the emission frequency of `CongressSampleBuilder::build()` (thread RNG) at a known rate
+fn stat_congress(n: u64) -> Result<Option<String>, String> {
+    catch(|| {
+        let rec = Recorder::default();
+        let mut s = CongressSampleBuilder::default().target_entries_per_interval(100).interval(Duration::from_secs(86400)).build(rec.clone());
+        s.verif_freeze_clock();
+        let e = group_entry(&vec![(1, 1)]);
+        for _ in 0..250 {
+            s.format(&e, &mut std::io::sink()).expect("format");
+        }
+        s.verif_end_interval();
+        let rate = s.verif_group_rates()[0].1; // 100/250
+        rec.sampled_calls.borrow_mut().clear();
+        for _ in 0..n {
+            s.format(&e, &mut std::io::sink()).expect("format");
+        }
+        let emitted = rec.sampled_calls.borrow().len() as f64;
+        let (m, ex) = dec32(rate);
+        let p = (((m as u128) << 24 >> (-ex) as u32) as f64 + 1.0) / 16777216.0;
+        let eps = bernstein_eps(n as f64, p * (1.0 - p), 1.0);
+        let got = emitted / n as f64;
+        if (got - p).abs() > eps {
+            return Some(format!("default path (CongressSampleBuilder::build): {emitted} of {n} entries emitted at rate {rate:e} = {got:.5}, expected {p:.5} +- {eps:.5} (false-alarm bound 1e-9)"));
+        }
+        None
+    })
+}
+
 /// strip the `noObs` field of the model's `R` tokens (not observable through the hooks)
 fn canon_model_cg(reply: &str) -> String {
     reply
@@ -1371,6 +1597,9 @@ enum Case {
     Ub(u32),
     Cg(CgCfg, Vec<CgOp>),
     Rt(RtCfg, Vec<RtStep>),
+    Dr(Vec<u64>, Vec<RngCallK>),
+    /// rate bits (0 = the congress builder), sample size
+    St(u32, u64),
 }
 
 impl Case {
@@ -1382,6 +1611,8 @@ impl Case {
             Case::Ub(r) => format!("ub {r:08x}"),
             Case::Cg(t, ops) => enc_cg(t, ops),
             Case::Rt(c, st) => enc_rt(c, st),
+            Case::Dr(w, c) => format!("dr {} {}", if w.is_empty() { "-".to_string() } else { w.iter().map(|x| format!("{x:016x}")).collect::<Vec<_>>().join(",") }, enc_calls(c)),
+            Case::St(r, n) => format!("st {r:08x} {n}"),
         }
     }
     fn decode(s: &str) -> Option<Case> {
@@ -1394,6 +1625,21 @@ impl Case {
             "ub" if p.len() == 2 => Some(Case::Ub(h32(p[1])?)),
             "cg" => dec_cg(&p[1..]).map(|(t, o)| Case::Cg(t, o)),
             "rt" => dec_rt(&p[1..]).map(|(c, st)| Case::Rt(c, st)),
+            "dr" if p.len() >= 2 => {
+                let words = if p[1] == "-" { vec![] } else { p[1].split(',').map(|x| u64::from_str_radix(x, 16).ok()).collect::<Option<Vec<_>>>()? };
+                let calls = p[2..]
+                    .iter()
+                    .map(|c| match *c {
+                        "a" => Some(RngCallK::U32),
+                        "b" => Some(RngCallK::U64),
+                        "e" => Some(RngCallK::F32),
+                        "d" => Some(RngCallK::F64),
+                        _ => c.strip_prefix('f')?.parse().ok().map(RngCallK::Fill),
+                    })
+                    .collect::<Option<Vec<_>>>()?;
+                Some(Case::Dr(words, calls))
+            }
+            "st" if p.len() == 3 => Some(Case::St(h32(p[1])?, p[2].parse().ok()?)),
             _ => None,
         }
     }
@@ -1518,6 +1764,46 @@ fn run_case(c: &Case, rep: &mut Report, rng: &mut Rng, search_only: bool) -> Opt
             }
             None
         }
+        Case::Dr(words, calls) => match run_dr(words, calls) {
+            Err(p) => {
+                rep.oracle_failure("sampling:default-rng", &enc, &format!("panic:{p}"), "DefaultRng panicked");
+                None
+            }
+            Ok((through, log, direct)) => {
+                if !search_only {
+                    rep.case(&enc, calls.iter().any(|c| matches!(c, RngCallK::U64 | RngCallK::F64)));
+                    rep.bump_by("dr:calls through DefaultRng<scripted R>", calls.len() as u64);
+                }
+                if let Some(what) = oracle_dr(calls, &through, &log, &direct) {
+                    let small = shrink_list(calls, |c| run_dr(words, c).map(|(t, l, d)| oracle_dr(c, &t, &l, &d).is_some()).unwrap_or(true));
+                    let (t, l, d) = run_dr(words, &small).unwrap_or((through.clone(), log.clone(), direct.clone()));
+                    rep.oracle_failure("sampling:default-rng", &Case::Dr(words.clone(), small.clone()).encode(), &t.join(" "), &oracle_dr(&small, &t, &l, &d).unwrap_or(what));
+                }
+                Some(Pending { component: "sampling/default-rng", case: enc.clone(), request: enc, answer: through.join(" ") })
+            }
+        },
+        Case::St(rb, n) => {
+            let pass = |n: u64| if *rb == 0 { stat_congress(n) } else { stat_pass(f32b(*rb), n) };
+            let first = pass(*n);
+            if !search_only {
+                rep.case(&enc, true);
+                rep.bump("st:statistical passes on the default RNG path (OS-seeded, independent of the seed)");
+            }
+            match first {
+                Err(p) => rep.oracle_failure("sampling:default-rng-statistics", &enc, &format!("panic:{p}"), "the default sampling path panicked"),
+                Ok(None) => {}
+                Ok(Some(w1)) => {
+                    // a bound with false-alarm probability 1e-9 was exceeded: repeat once with 10x the sample before reporting
+                    rep.bump("st:first pass outside its bound, repeated with 10x the sample");
+                    match pass(*n * 10) {
+                        Ok(None) => rep.notes.push(format!("statistical stage: first pass of `{enc}` was outside its 1e-9 bound ({w1}) but the 10x repeat was inside")),
+                        Ok(Some(w2)) => rep.oracle_failure("sampling:default-rng-statistics", &enc, &w1, &format!("{w2} [second pass, 10x sample; first pass: {w1}]")),
+                        Err(p) => rep.oracle_failure("sampling:default-rng-statistics", &enc, &format!("panic:{p}"), "the default sampling path panicked"),
+                    }
+                }
+            }
+            None
+        }
         Case::Rt(cfg, steps) => match run_rt(cfg, steps, 6) {
             Err(p) => {
                 rep.oracle_failure("sampling:congress-clock", &enc, &format!("panic:{p}"), "CongressSample panicked");
@@ -1603,6 +1889,14 @@ fn neighbours(case: &str, rng: &mut Rng, n: usize) -> Vec<Case> {
                 Case::Rc(rr, if i % 2 == 0 { *w } else { gen_word64(rng, f32b(rr)) }, ms.clone())
             }
             Case::Ub(r) => Case::Ub(jitter(*r, rng)),
+            Case::Dr(w, c) => {
+                let mut w2 = w.clone();
+                if let Some(x) = w2.get_mut(i % w.len().max(1)) {
+                    *x = rng.next_u64();
+                }
+                Case::Dr(w2, c.clone())
+            }
+            Case::St(r, n) => Case::St(*r, *n),
             Case::Rt(c, st) => {
                 let mut o = st.clone();
                 for step in o.iter_mut() {
@@ -1639,7 +1933,7 @@ fn main() {
         "sampling",
         "case = one of na(rate) / fx(rate, draw) / rc(rate, draw, observation kinds) / ub(rate) / cg(target, history); non-trivial = \
          na: alpha != 1 (1/rate is not an integer); fx: rate < 1; rc: weight > 1 or some Counts entry; ub: always; \
-         cg: at least one interval above target (rates actually computed); rt: at least one clock-ended interval with 1..15 entries; distinct by case text",
+         cg: at least one interval above target (rates actually computed); rt: at least one clock-ended interval with 1..15 entries; dr: a 64-bit call; st: always; distinct by case text",
     );
     let mut rng = Rng::new(args.seed);
     let mut cases: Vec<Case> = vec![];
@@ -1653,6 +1947,21 @@ fn main() {
                 Some(c) => cases.push(c),
                 None => rep.notes.push(format!("corpus line not understood: {l}")),
             }
+        }
+        // --- st: statistics of the real default path (not derived from the seed) -----------------
+        let n_st = if thorough { 200_000 } else { 20_000 };
+        for r in [0.4f32, 0.3, 0.1, 0.7, 0.225] {
+            cases.push(Case::St(r.to_bits(), n_st));
+        }
+        cases.push(Case::St(0, n_st));
+        // --- dr: DefaultRng over a scripted inner generator ------------------------------------
+        let n_dr = if thorough { 20_000 } else { 1_500 };
+        for _ in 0..n_dr {
+            let nw = rng.below(6);
+            let words: Vec<u64> = (0..nw).map(|_| match rng.below(4) { 0 => u64::MAX, 1 => rng.next_u64() >> 32, 2 => rng.next_u64() << 32, _ => rng.next_u64() }).collect();
+            let nc = rng.range(1, 8);
+            let calls = (0..nc).map(|_| match rng.below(6) { 0 => RngCallK::U32, 1 | 2 => RngCallK::U64, 3 => RngCallK::Fill(rng.below(20) as usize), 4 => RngCallK::F32, _ => RngCallK::F64 }).collect();
+            cases.push(Case::Dr(words, calls));
         }
         // --- na: structured rates -------------------------------------------------------------
         for k in 0..=63u32 {
